@@ -31,6 +31,7 @@ import Rs1090.Model.Decode.Message
 import Rs1090.Spec.Encode
 import Rs1090.Props.C13
 import Rs1090.Proofs.C03Commb
+import Rs1090.Proofs.C03Air
 namespace Rs1090.Props.C03
 open Rs1090 Rs1090.Model Rs1090.Model.Message Rs1090.Spec Rs1090.Spec.Encode Rs1090.Props.C13 Rs1090.Proofs.C03
 
@@ -892,6 +893,97 @@ theorem df5_squawk (fs dr um q addr : Nat)
   rw [← squawk_rt q hq]
   exact tryFrom_df5 fs dr um _ addr hfs hdr hum (id13OfOctal_lt q hq) haddr
 
+/-! ## Air-air surveillance replies (DF 0 / DF 16) and the all-call reply (DF 11)
+
+`buildAir0 vs cc sl ri code addr` / `buildAir16 vs sl ri code addr mv` are the Spec's ACAS replies (Annex 10
+§3.1.2.8.2 / §3.1.2.8.3): the AC field at bits 20–32 behind VS, (CC,) SL, RI and the spare bits, then (DF 16) the
+56-bit MV field, then the AP overlay.  The altitude statements are the ones of DF 4 — same field codec `ac13`, same
+two recorded findings — for every value of VS, CC, SL, RI, every MV content and every address. -/
+
+/-- **DF 0** (`_partial`: the 2007 codes N > 40 of the 25 ft encoding; the full statement is false,
+    `alt25_ac13_full_false`): the altitude `25·N − 1000` ft in the AC field, every 24-bit address through the AP
+    overlay, every value of VS, CC, SL, RI -/
+theorem df0_altitude_partial (vs cc sl ri n addr : Nat)
+    (hvs : vs < 2 ^ 1) (hcc : cc < 2 ^ 1) (hsl : sl < 2 ^ 3) (hri : ri < 2 ^ 4) (hn : n < 2 ^ 11) (h40 : n > 40)
+    (haddr : addr < 2 ^ 24) :
+    tryFrom (buildAir0 vs cc sl ri (ac13Q n) addr) = .ok (toDecoded (.ok
+      [dfTag (key! "0"), fld (key! "altitude") (jnat (25 * n - 1000)), fld (key! "icao24") (jhex6 addr)])) :=
+  tryFrom_df0 vs cc sl ri _ addr _ hvs hcc hsl hri (ac13Q_lt n hn) haddr (alt25_ac13_rt_partial n hn h40)
+
+/-- **finding, frame level** (`C03-altitude-nonpositive-unavailable`): the 41 codes N ≤ 40 in DF 0: `altitude: 0` -/
+theorem finding_df0_altitude_nonpositive (vs cc sl ri n addr : Nat)
+    (hvs : vs < 2 ^ 1) (hcc : cc < 2 ^ 1) (hsl : sl < 2 ^ 3) (hri : ri < 2 ^ 4) (hn : n < 2 ^ 11) (h40 : n ≤ 40)
+    (haddr : addr < 2 ^ 24) :
+    tryFrom (buildAir0 vs cc sl ri (ac13Q n) addr) = .ok (toDecoded (.ok
+      [dfTag (key! "0"), fld (key! "altitude") (jnat 0), fld (key! "icao24") (jhex6 addr)])) :=
+  tryFrom_df0 vs cc sl ri _ addr _ hvs hcc hsl hri (ac13Q_lt n hn) haddr
+    (finding_alt25_nonpositive_unavailable n hn h40).2
+
+/-- … with a Gillham-coded altitude (`_partial`: steps 12 … 667, i.e. 0 … 65 500 ft) -/
+theorem df0_altitude_gillham_partial (vs cc sl ri s addr : Nat)
+    (hvs : vs < 2 ^ 1) (hcc : cc < 2 ^ 1) (hsl : sl < 2 ^ 3) (hri : ri < 2 ^ 4) (hs1 : 12 ≤ s) (hs2 : s ≤ 667)
+    (haddr : addr < 2 ^ 24) :
+    tryFrom (buildAir0 vs cc sl ri (ac13G s) addr) = .ok (toDecoded (.ok
+      [dfTag (key! "0"), fld (key! "altitude") (jnat (100 * s - 1200)), fld (key! "icao24") (jhex6 addr)])) :=
+  tryFrom_df0 vs cc sl ri _ addr _ hvs hcc hsl hri (ac13G_lt s (by omega)) haddr
+    (gillham_ac13_rt_partial s (by omega) hs1 hs2)
+
+/-- **finding, frame level**: Gillham steps below 0 ft and above 65 500 ft in DF 0: `altitude: 0` -/
+theorem finding_df0_altitude_gillham_out_of_u16 (vs cc sl ri s addr : Nat)
+    (hvs : vs < 2 ^ 1) (hcc : cc < 2 ^ 1) (hsl : sl < 2 ^ 3) (hri : ri < 2 ^ 4) (hs : s < GILLHAM_STEPS)
+    (hout : s < 12 ∨ 667 < s) (haddr : addr < 2 ^ 24) :
+    tryFrom (buildAir0 vs cc sl ri (ac13G s) addr) = .ok (toDecoded (.ok
+      [dfTag (key! "0"), fld (key! "altitude") (jnat 0), fld (key! "icao24") (jhex6 addr)])) := by
+  have hs11 : s < 2 ^ 11 := by unfold GILLHAM_STEPS at hs; omega
+  exact tryFrom_df0 vs cc sl ri _ addr _ hvs hcc hsl hri (ac13G_lt s hs11) haddr
+    (finding_gillham_out_of_u16_unavailable s hs11 hs hout).2
+
+/-- the serialised DF 16 reply: `df`, vertical status, sensitivity level, reply information, altitude, address -/
+def out16 (vs sl ri alt addr : Nat) : SerFields := .ok
+  [dfTag (key! "16"), fld (key! "vs") (jnat vs), fld (key! "sl") (jnat sl), fld (key! "ri") (jnat ri),
+   fld (key! "altitude") (jnat alt), fld (key! "icao24") (jhex6 addr)]
+
+/-- **DF 16** (`_partial`: N > 40): the altitude `25·N − 1000` ft, VS / SL / RI as sent, every address through the
+    AP overlay — for EVERY content of the 56-bit MV field -/
+theorem df16_altitude_partial (vs sl ri n addr : Nat) (mv : List Field)
+    (hvs : vs < 2 ^ 1) (hsl : sl < 2 ^ 3) (hri : ri < 2 ^ 4) (hn : n < 2 ^ 11) (h40 : n > 40)
+    (haddr : addr < 2 ^ 24) (hw : width mv = 56) (hfit : fits mv = true) :
+    tryFrom (buildAir16 vs sl ri (ac13Q n) addr mv) = .ok (toDecoded (out16 vs sl ri (25 * n - 1000) addr)) :=
+  tryFrom_df16 vs sl ri _ addr _ mv hvs hsl hri (ac13Q_lt n hn) haddr hw hfit (alt25_ac13_rt_partial n hn h40)
+
+/-- **finding, frame level** (`C03-altitude-nonpositive-unavailable`): the 41 codes N ≤ 40 in DF 16: `altitude: 0` -/
+theorem finding_df16_altitude_nonpositive (vs sl ri n addr : Nat) (mv : List Field)
+    (hvs : vs < 2 ^ 1) (hsl : sl < 2 ^ 3) (hri : ri < 2 ^ 4) (hn : n < 2 ^ 11) (h40 : n ≤ 40)
+    (haddr : addr < 2 ^ 24) (hw : width mv = 56) (hfit : fits mv = true) :
+    tryFrom (buildAir16 vs sl ri (ac13Q n) addr mv) = .ok (toDecoded (out16 vs sl ri 0 addr)) :=
+  tryFrom_df16 vs sl ri _ addr _ mv hvs hsl hri (ac13Q_lt n hn) haddr hw hfit
+    (finding_alt25_nonpositive_unavailable n hn h40).2
+
+/-- … with a Gillham-coded altitude (`_partial`: steps 12 … 667, i.e. 0 … 65 500 ft) -/
+theorem df16_altitude_gillham_partial (vs sl ri s addr : Nat) (mv : List Field)
+    (hvs : vs < 2 ^ 1) (hsl : sl < 2 ^ 3) (hri : ri < 2 ^ 4) (hs1 : 12 ≤ s) (hs2 : s ≤ 667)
+    (haddr : addr < 2 ^ 24) (hw : width mv = 56) (hfit : fits mv = true) :
+    tryFrom (buildAir16 vs sl ri (ac13G s) addr mv) = .ok (toDecoded (out16 vs sl ri (100 * s - 1200) addr)) :=
+  tryFrom_df16 vs sl ri _ addr _ mv hvs hsl hri (ac13G_lt s (by omega)) haddr hw hfit
+    (gillham_ac13_rt_partial s (by omega) hs1 hs2)
+
+/-- **finding, frame level**: Gillham steps below 0 ft and above 65 500 ft in DF 16: `altitude: 0` -/
+theorem finding_df16_altitude_gillham_out_of_u16 (vs sl ri s addr : Nat) (mv : List Field)
+    (hvs : vs < 2 ^ 1) (hsl : sl < 2 ^ 3) (hri : ri < 2 ^ 4) (hs : s < GILLHAM_STEPS) (hout : s < 12 ∨ 667 < s)
+    (haddr : addr < 2 ^ 24) (hw : width mv = 56) (hfit : fits mv = true) :
+    tryFrom (buildAir16 vs sl ri (ac13G s) addr mv) = .ok (toDecoded (out16 vs sl ri 0 addr)) := by
+  have hs11 : s < 2 ^ 11 := by unfold GILLHAM_STEPS at hs; omega
+  exact tryFrom_df16 vs sl ri _ addr _ mv hvs hsl hri (ac13G_lt s hs11) haddr hw hfit
+    (finding_gillham_out_of_u16_unavailable s hs11 hs hout).2
+
+/-- **DF 11**: every 24-bit ANNOUNCED address (AA, bits 9–32) is reported as `icao24`, with the capability, for every
+    interrogator code `ic` overlaid on the parity (`ic = 0`: acquisition squitter / reply to an II = 0 all-call) — the
+    checksum remainder of a DF 11 reply is the interrogator code, not an address, and is not reported -/
+theorem df11_address (ca aa ic : Nat) (hca : ca < 2 ^ 3) (haa : aa < 2 ^ 24) (hic : ic < 2 ^ 24) :
+    tryFrom (buildAllCall ca aa ic) = .ok (toDecoded (.ok
+      [dfTag (key! "11"), fld (key! "capability") (.lit (capabilityName ca)), fld (key! "icao24") (jhex6 aa)])) :=
+  tryFrom_df11 ca aa ic hca haa hic
+
 /-! ## Comm-B replies (DF 20 / DF 21)
 
 The MB field is decoded by hypothesis testing: every register reader is tried on the 56 bits and the
@@ -929,6 +1021,52 @@ theorem commbCarries_of (mb : List Field) (key : Key) (val : Fields)
     exact ⟨alt, regs, halt, htf, hget b05 regs hregs⟩
   · obtain ⟨regs, hregs, htf⟩ := tryFrom_df21 fs dr um code addr mb hfs hdr hum hcode haddr hw hfit hnz
     exact ⟨regs, htf, hget none regs hregs⟩
+
+/-- **DF 20, the AC field at frame level** (`_partial`: N > 40): a Comm-B altitude reply built by the Spec around ANY
+    non-zero 56-bit MB field carries `altitude = 25·N − 1000` ft and the address of the AP overlay; `regs` are the
+    registers the hypothesis test recognised in the MB field -/
+theorem df20_altitude_partial (fs dr um n addr : Nat) (mb : List Field)
+    (hfs : fs < 2 ^ 3) (hdr : dr < 2 ^ 5) (hum : um < 2 ^ 6) (hn : n < 2 ^ 11) (h40 : n > 40) (haddr : addr < 2 ^ 24)
+    (hw : width mb = 56) (hfit : fits mb = true) (hnz : NonZero mb) :
+    ∃ regs, tryFrom (buildCommB 20 fs dr um (ac13Q n) addr mb) = .ok (toDecoded (.ok
+      ([dfTag (key! "20"), fld (key! "altitude") (jnat (25 * n - 1000))] ++ regs ++
+        [fld (key! "icao24") (jhex6 addr)]))) := by
+  obtain ⟨_, regs, _, _, htf⟩ := tryFrom_df20 fs dr um _ addr _ mb hfs hdr hum (ac13Q_lt n hn) haddr hw hfit hnz
+    (alt25_ac13_rt_partial n hn h40)
+  exact ⟨regs, htf⟩
+
+/-- … with a Gillham-coded altitude (`_partial`: steps 12 … 667, i.e. 0 … 65 500 ft) -/
+theorem df20_altitude_gillham_partial (fs dr um s addr : Nat) (mb : List Field)
+    (hfs : fs < 2 ^ 3) (hdr : dr < 2 ^ 5) (hum : um < 2 ^ 6) (hs1 : 12 ≤ s) (hs2 : s ≤ 667) (haddr : addr < 2 ^ 24)
+    (hw : width mb = 56) (hfit : fits mb = true) (hnz : NonZero mb) :
+    ∃ regs, tryFrom (buildCommB 20 fs dr um (ac13G s) addr mb) = .ok (toDecoded (.ok
+      ([dfTag (key! "20"), fld (key! "altitude") (jnat (100 * s - 1200))] ++ regs ++
+        [fld (key! "icao24") (jhex6 addr)]))) := by
+  obtain ⟨_, regs, _, _, htf⟩ := tryFrom_df20 fs dr um _ addr _ mb hfs hdr hum (ac13G_lt s (by omega)) haddr hw hfit hnz
+    (gillham_ac13_rt_partial s (by omega) hs1 hs2)
+  exact ⟨regs, htf⟩
+
+/-- **finding, frame level** (`C03-altitude-nonpositive-unavailable`): the 41 codes N ≤ 40 in DF 20: `altitude: 0` -/
+theorem finding_df20_altitude_nonpositive (fs dr um n addr : Nat) (mb : List Field)
+    (hfs : fs < 2 ^ 3) (hdr : dr < 2 ^ 5) (hum : um < 2 ^ 6) (hn : n < 2 ^ 11) (h40 : n ≤ 40) (haddr : addr < 2 ^ 24)
+    (hw : width mb = 56) (hfit : fits mb = true) (hnz : NonZero mb) :
+    ∃ regs, tryFrom (buildCommB 20 fs dr um (ac13Q n) addr mb) = .ok (toDecoded (.ok
+      ([dfTag (key! "20"), fld (key! "altitude") (jnat 0)] ++ regs ++ [fld (key! "icao24") (jhex6 addr)]))) := by
+  obtain ⟨_, regs, _, _, htf⟩ := tryFrom_df20 fs dr um _ addr _ mb hfs hdr hum (ac13Q_lt n hn) haddr hw hfit hnz
+    (finding_alt25_nonpositive_unavailable n hn h40).2
+  exact ⟨regs, htf⟩
+
+/-- **DF 21, the ID field at frame level**: all 4096 squawks, every address, any non-zero MB field -/
+theorem df21_squawk (fs dr um q addr : Nat) (mb : List Field)
+    (hfs : fs < 2 ^ 3) (hdr : dr < 2 ^ 5) (hum : um < 2 ^ 6) (hq : q < 2 ^ 12) (haddr : addr < 2 ^ 24)
+    (hw : width mb = 56) (hfit : fits mb = true) (hnz : NonZero mb) :
+    ∃ regs, tryFrom (buildCommB 21 fs dr um (id13OfOctal q) addr mb) = .ok (toDecoded (.ok
+      ([dfTag (key! "21"), fld (key! "squawk") (jhex4
+          (0x1000 * ((q >>> 9) % 8) + 0x100 * ((q >>> 6) % 8) + 0x10 * ((q >>> 3) % 8) + q % 8))] ++ regs ++
+        [fld (key! "icao24") (jhex6 addr)]))) := by
+  rw [← squawk_rt q hq]
+  obtain ⟨regs, _, htf⟩ := tryFrom_df21 fs dr um _ addr mb hfs hdr hum (id13OfOctal_lt q hq) haddr hw hfit hnz
+  exact ⟨regs, htf⟩
 
 /-- **BDS 2,0 in DF 20/21**: every valid call sign -/
 theorem commb_identification (cs : List Char) (hcs : validCallsign cs) :
